@@ -18,6 +18,7 @@ EXPLANATION = (
     "handler, success <-> failure swapped) and both are registered with the matching wrapper; U5 OccursCheck is a GroundingError (a ProbLog error), "
     "UnifyError is only a control signal. Most-general-ness and variable renaming across contexts are not decided."
     " Added after seed round 6: U7 unify_call_return dereferences answer bindings through the caller-side links no later than the renaming pass."
+    " Added after seed round 7: U8 context_min_var lowers its bound by the variable itself or by the minimum over all variables of an argument."
 )
 TECHNIQUE = "static analysis: path-wise decision-table extraction over unify_value/unify_value_dc, sibling complement rule"
 LEVEL_TEXT = EXPLANATION
